@@ -232,7 +232,8 @@ class Context:
         os.makedirs(os.path.join(VERIF, "evidence"), exist_ok=True)
         with open(os.path.join(VERIF, "evidence", self.pid + ".json"), "w") as f:
             json.dump(ev, f, indent=1, default=str)
-        shutil.rmtree(self.work, ignore_errors=True)
+        if not os.environ.get("VERIF_KEEP"):
+            shutil.rmtree(self.work, ignore_errors=True)
         try:
             os.rmdir(os.path.join(VERIF, ".work"))
         except OSError:
